@@ -7,6 +7,7 @@ import (
 	"os"
 	"os/exec"
 	"path/filepath"
+	"runtime"
 	"strings"
 	"sync"
 	"time"
@@ -39,7 +40,21 @@ type answer struct {
 	time   float64
 }
 
+// solverSlots bounds the number of solver processes running at once to the
+// number of cores, so that a solver's wall-clock limit measures its own work
+// and not the contention with its siblings.
+var solverSlots = make(chan struct{}, maxInt(4, runtime.NumCPU()/2))
+
 func runSolver(ctx context.Context, s solverSpec, file string, timeoutS int) answer {
+	select {
+	case solverSlots <- struct{}{}:
+		defer func() { <-solverSlots }()
+	case <-ctx.Done():
+		return answer{solver: s.name, result: "unknown", output: "cancelled"}
+	}
+	if ctx.Err() != nil {
+		return answer{solver: s.name, result: "unknown", output: "cancelled"}
+	}
 	start := time.Now()
 	argv := s.argv(file, timeoutS)
 	cctx, cancel := context.WithTimeout(ctx, time.Duration(timeoutS+2)*time.Second)
@@ -271,4 +286,11 @@ func sexprTokens(s string) []string {
 		}
 	}
 	return toks
+}
+
+func maxInt(a, b int) int {
+	if a > b {
+		return a
+	}
+	return b
 }
